@@ -45,6 +45,12 @@ type SmtpMsg struct {
 	// AttachBytes > 0: the message also carries an attachment of this many bytes (a multipart message: the body and
 	// the file go through the multipart layers of the writer)
 	AttachBytes int `json:"attach_bytes,omitempty"`
+	// Charset: the message charset (WithCharset), "" = the default. Combined with EightBit: a message that is labelled
+	// US-ASCII or ISO-8859-1 and transferred unencoded is an 8bit message like any other
+	Charset string `json:"charset,omitempty"`
+	// Signed (only together with a failing file source): the message is also S/MIME signed with a usable key. A
+	// failing producer must be reported whether or not the message goes through the signing pass first
+	Signed bool `json:"signed,omitempty"`
 	// ToViaAdd: the To list is built with To(first) followed by one AddTo per further address
 	ToViaAdd bool `json:"to_via_add,omitempty"`
 }
@@ -183,6 +189,9 @@ func buildSmtpMsg(i int, sm SmtpMsg) *mail.Msg {
 	if sm.EightBit {
 		opts = append(opts, mail.WithEncoding(mail.NoEncoding))
 	}
+	if sm.Charset != "" {
+		opts = append(opts, mail.WithCharset(mail.Charset(sm.Charset)))
+	}
 	m := mail.NewMsg(opts...)
 	if sm.From != "" {
 		_ = m.From(sm.From)
@@ -250,6 +259,9 @@ func buildSmtpMsg(i int, sm SmtpMsg) *mail.Msg {
 		m.SetBodyWriter(mail.TypeTextPlain, producer([][]byte{content}, true))
 	} else {
 		m.SetBodyString(mail.TypeTextPlain, body)
+	}
+	if sm.Signed && sm.RenderFail {
+		_ = signWith(m, "rsa", 0)
 	}
 	if sm.AttachBytes > 0 {
 		data := make([]byte, sm.AttachBytes)
